@@ -321,8 +321,6 @@ class Lower:
                 en = self.G.enums[segs[0]]
                 if segs[1] not in en["variants"]: self.fail(f"unknown variant {'::'.join(segs)}", ln)
                 return [], f"({en['model']}.{en['variants'][segs[1]]})", ("enum", segs[0])
-            if len(segs) == 1 or segs[-1] in self.G.consts:
-                pass
             if segs[-1] in self.G.consts: return [], str(self.G.consts[segs[-1]]), "nat"
             self.fail(f"path `{'::'.join(segs)}`", ln)
         if k == "field":
@@ -349,7 +347,6 @@ class Lower:
                 if l2: self.fail(f"`{op}` with an effectful right operand", ln)
                 return l1, f"{atom(self.prop(a, ta, ln))} {'∧' if op == '&&' else '∨'} {atom(self.prop(b, tb, ln))}", "prop"
             l2, b, tb = self.expr(e[3], ln)
-            if l2 and self.mentions_assigned_between(e[2], e[3]): self.fail("operand order", ln)
             ls = l1 + l2
             if op in ("==", "!=", "<", ">", "<=", ">="):
                 if ta != tb: self.fail(f"comparison of {ta} with {tb}", ln)
@@ -446,8 +443,6 @@ class Lower:
         if k == "structlit": return self.structlit(e, ln)
         self.fail(f"expression `{k}`", ln)
 
-    def mentions_assigned_between(self, l, r): return False     # operands are pure terms over immutable bindings: nothing can re-assign
-
     def prop(self, t, ty, ln):
         if ty == "prop": return t
         if ty == "bool": return f"{atom(t)} = true"
@@ -473,7 +468,7 @@ class Lower:
         out = [f"let {t} ← (match {s} with"]
         for i, (pat, blines, bt) in enumerate(arms):
             last = ")" if i == len(arms) - 1 else ""
-            body = blines + [self.ret_line(blines, bt)]
+            body = blines + [f"pure {atom(bt)}"]
             body = self.tail_opt(body)
             out.append(f"    | {pat} => (do")
             out += ["        " + b for b in body[:-1]] + ["        " + body[-1] + ")" + last]
@@ -493,8 +488,6 @@ class Lower:
         l, t, ty = self.expr(tail, ln)
         self.scopes.pop()
         return ls + l, t, ty
-
-    def ret_line(self, lines, t): return f"pure {atom(t)}"
 
     def tail_opt(self, body):
         """`let t ← X; pure t` => `X`"""
@@ -563,7 +556,8 @@ class Lower:
             if tgt[0] == "index" and tgt[1][0] == "path" and len(tgt[1][1]) == 1:
                 v = self.lookup(tgt[1][1][0], ln)
                 if not v.mut or v.ty != ("list", "nat"): self.fail("element assignment to something that is not a mutable vector", ln)
-                e = rhs if op is None else ("bin", op, tgt, rhs)
+                if op is not None: self.fail("compound assignment to a vector element (operand order: right operand first)", ln)
+                e = rhs
                 l1, t, ty = self.expr(e, ln)                      # value first, then the place (as in Rust)
                 l2, ix, ity = self.expr(tgt[2], ln)
                 if ty != "nat" or ity != "nat": self.fail("element assignment of a non-word", ln)
